@@ -71,9 +71,13 @@ impl UnionBuilder {
             fail!("Could not find variant {variant_index} in Union");
         };
 
+        let Some(next_offset) = self.current_offset[variant_index].checked_add(1) else {
+            fail!("Invalid union offsets: the offset type cannot represent the number of elements of variant {variant_index}");
+        };
+
         self.offsets.push(self.current_offset[variant_index]);
         self.types.push(i8::try_from(variant_index)?);
-        self.current_offset[variant_index] += 1;
+        self.current_offset[variant_index] = next_offset;
 
         Ok(variant_builder)
     }
